@@ -10,19 +10,48 @@ Proof. exact c06_holds. Qed.
 Print Assumptions c06_correlation_status_shape.
 
 (* C06 over deliveries: whatever binding the caller names (HTTP-POST, HTTP-Redirect, HTTP-Artifact, SOAP,
-   PAOS) and whatever the Response's Destination, the decision satisfies the status / version / shape
-   clauses; over the browser bindings (POST, Redirect) it satisfies the correlation clause, and, when the
-   Response is unaddressed or addressed to that binding's consumer endpoint, the two completeness clauses *)
+   PAOS), whatever the Response's Destination and whichever of its assertions arrive encrypted, the decision
+   of the code as it is now (with b84752ad and e76039c1) satisfies the status / version / shape clauses; over
+   the browser bindings (POST, Redirect) it satisfies the correlation clause, and, when the Response is
+   unaddressed or addressed to that binding's consumer endpoint, the two completeness clauses.  No guard. *)
 Theorem c06_delivery : forall y, spec_d y (receive y).
 Proof. exact c06_delivery_holds. Qed.
 Print Assumptions c06_delivery.
 
-(* the two browser bindings are treated alike and as an asynchronous hop: the decision is [accept], in which
-   the binding does not occur (so neither of them is handled as a back channel) *)
+(* C06-F2, fixed by b84752ad: the pinned snapshot ([receive_v0]) accepted an encrypted assertion whose
+   confirmation answers another request than the Response does *)
+Theorem c06_encrypted_correlation_v0_refuted : exists y, partial_match y = false /\ ~ spec_d y (receive_v0 y).
+Proof. exact encrypted_correlation_v0_refuted. Qed.
+Print Assumptions c06_encrypted_correlation_v0_refuted.
+
+(* C06-F3, fixed by e76039c1: with b84752ad alone ([receive_v1]) an encrypted assertion that carries both a
+   confirmation answering the Response's request and a stray one was still accepted *)
+Theorem c06_encrypted_partial_match_v1_refuted : exists y, partial_match y = true /\ ~ spec_d y (receive_v1 y).
+Proof. exact encrypted_partial_match_v1_refuted. Qed.
+Print Assumptions c06_encrypted_partial_match_v1_refuted.
+
+Theorem c06_encrypted_correlation_fixed :
+  receive_v1 stray_sealed = NoId /\ receive stray_sealed = NoId /\ receive partly_stray_sealed = NoId.
+Proof. exact encrypted_correlation_fixed. Qed.
+Print Assumptions c06_encrypted_correlation_fixed.
+
+(* with every assertion in clear the general decision is the one C09 composes ([accept] behind the binding
+   and Destination tests) in all three states of the code: in clear both repairs repeat the check made in loads() *)
+Theorem c06_in_clear : forall f y, forallb negb (sealed y) = true -> receive_f f y = receive_plain y.
+Proof. exact receive_plain_eq. Qed.
+Print Assumptions c06_in_clear.
+
+(* the two browser bindings are treated alike and as an asynchronous hop: the decision is one in which the
+   binding does not occur (so neither of them is handled as a back channel); in clear it is [accept] *)
 Theorem c06_browser_bindings_alike : forall y,
-  browser (via y) = true -> well_addressed y = true -> receive y = accept (resp y).
-Proof. exact browser_is_accept. Qed.
+  browser (via y) = true -> well_addressed y = true -> receive y = accept_sealed V2 (sealed y) (resp y).
+Proof. exact browser_is_accept_sealed. Qed.
 Print Assumptions c06_browser_bindings_alike.
+
+Theorem c06_browser_bindings_accept : forall y,
+  browser (via y) = true -> well_addressed y = true -> forallb negb (sealed y) = true -> receive y = accept (resp y).
+Proof. exact browser_is_accept. Qed.
+Print Assumptions c06_browser_bindings_accept.
 
 (* what the browser-binding guard of the correlation clause leaves out, as coded: over the SOAP back channel
    no request context is handed back and the outstanding set / allow_unsolicited are not consulted *)
@@ -32,7 +61,7 @@ Print Assumptions c06_back_channel_uncorrelated.
 
 Theorem c06_back_channel_ignores_outstanding : forall y o a,
   via y = Soap ->
-  receive {| via := Soap; dest := dest y;
+  receive {| via := Soap; dest := dest y; sealed := sealed y;
              resp := {| allow_unsolicited := a; outstanding := o; irt := irt (resp y); version := version (resp y);
                         status_top := status_top (resp y); status_second := status_second (resp y);
                         assertions := assertions (resp y) |} |} = receive y.
